@@ -8,6 +8,72 @@ From RecordUpdate Require Import RecordSet.
 Import RecordSetNotations.
 Open Scope N_scope.
 
+(* the four component types are implicit in the engine functions, locally to this file *)
+#[local] Arguments init {enc dec} _ {ores ires} _ _.
+#[local] Arguments release {enc dec ores ires} _ _ _ _.
+#[local] Arguments disconnect_completion {enc dec ores ires} _ _.
+#[local] Arguments fail_op {enc dec ores ires} _ _ _ _.
+#[local] Arguments ping_extension {enc dec ores ires} _ _.
+#[local] Arguments succeed_op {enc dec ores ires} _ _ _ _.
+#[local] Arguments fail_all {enc dec ores ires} _ _ _ _.
+#[local] Arguments succeed_all {enc dec ores ires} _ _ _.
+#[local] Arguments andthen {enc dec ores ires} _ _.
+#[local] Arguments try_ {enc dec ores ires} _ _.
+#[local] Arguments pure {enc dec ores ires} _.
+#[local] Arguments create_operation {enc dec ores ires} _ _.
+#[local] Arguments passes_now {enc dec ores ires} _ _ _.
+#[local] Arguments user_event {enc dec ores ires} _ _ _ _.
+#[local] Arguments create_connect {enc dec ores ires} _ _.
+#[local] Arguments net_opened {enc dec} _ {ores ires} _ _ _.
+#[local] Arguments op_exists {enc dec ores ires} _ _.
+#[local] Arguments op_passes {enc dec ores ires} _ _ _.
+#[local] Arguments partition_policy {enc dec ores ires} _ _ _.
+#[local] Arguments closed_current {enc dec ores ires} _ _.
+#[local] Arguments slow_start_init {enc dec ores ires} _ _.
+#[local] Arguments update_retries {enc dec ores ires} _ _.
+#[local] Arguments fail_exceeding {enc dec ores ires} _ _.
+#[local] Arguments has_pubrel {enc dec ores ires} _ _.
+#[local] Arguments net_closed_raw {enc dec ores ires} _ _.
+#[local] Arguments net_closed {enc dec ores ires} _ _.
+#[local] Arguments net_write_completion {enc dec ores ires} _ _.
+#[local] Arguments acquire_free_pid {enc dec ores ires} _ _.
+#[local] Arguments acquire_pid_for {enc dec ores ires} _ _.
+#[local] Arguments unbind {enc dec ores ires} _ _.
+#[local] Arguments passes_receive_max {enc dec ores ires} _ _.
+#[local] Arguments throttled {enc dec ores ires} _ _.
+#[local] Arguments has_pending_ack {enc dec ores ires} _.
+#[local] Arguments dequeue {enc dec ores ires} _ _ _.
+#[local] Arguments fully_written {enc dec ores ires} _ _.
+#[local] Arguments service_keep_alive {enc dec ores ires} _ _ _.
+#[local] Arguments process_ack_timeouts {enc dec ores ires} _ _ _.
+#[local] Arguments halt_on_error {enc dec ores ires} _ _.
+#[local] Arguments next_service_time {enc dec ores ires} _ _ _.
+#[local] Arguments build_settings {enc dec ores ires} _ _ _.
+#[local] Arguments apply_session {enc dec ores ires} _ _ _.
+#[local] Arguments hres_of {enc dec ores ires} _ _.
+#[local] Arguments pre_connack {enc dec ores ires} _.
+#[local] Arguments sum_ss {enc dec ores ires} _.
+#[local] Arguments handle_pingresp {enc dec ores ires} _.
+#[local] Arguments handle_suback {enc dec ores ires} _ _ _.
+#[local] Arguments handle_unsuback {enc dec ores ires} _ _ _.
+#[local] Arguments publish_qos_of {enc dec ores ires} _ _.
+#[local] Arguments handle_puback {enc dec ores ires} _ _ _.
+#[local] Arguments handle_pubrec {enc dec ores ires} _ _ _.
+#[local] Arguments handle_pubrel {enc dec ores ires} _ _.
+#[local] Arguments handle_pubcomp {enc dec ores ires} _ _ _.
+#[local] Arguments handle_publish {enc dec ores ires} _ _.
+#[local] Arguments handle_disconnect {enc dec ores ires} _ _ _.
+#[local] Arguments is_connect_op {enc dec ores ires} _ _.
+#[local] Arguments connect_in_queue {enc dec ores ires} _.
+#[local] Arguments reset {enc dec ores ires} _ _.
+#[local] Arguments out_of_res {enc dec ores ires} _ _.
+#[local] Arguments nst_queue {enc dec ores ires} _ _ _ _.
+#[local] Arguments earliest_tmo {enc dec ores ires} _.
+#[local] Arguments SeatStop {enc dec ores ires} _.
+#[local] Arguments SeatContinue {enc dec ores ires} _ _.
+#[local] Arguments SeatEncode {enc dec ores ires} _.
+
+
 Lemma sum_ss_fold (l : list (N * op)) : forall a, fold_left (fun acc '(_, o) => acc + op_ss o) l a = a + sumss l.
 Proof.
   induction l as [|[k v] r IH]; intros a; cbn [fold_left].
@@ -32,7 +98,7 @@ Section Data.
   Variable v_out : option settings -> connect_opts -> resolution -> packet -> outcome unit.
   Variable v_in : option settings -> packet -> outcome unit.
   Variable cfg : config.
-  Hypothesis HC : comps_ok enc enc_reset enc_call dec dec_feed ores ores_resolve ires ires_resolve v_out v_in.
+  Variable HC : comps_ok enc enc_reset enc_call dec dec_init dec_feed ores ores_reset ores_resolve ires ires_reset ires_resolve v_out v_in.
 
   Notation state := (state enc dec ores ires).
   Notation hres := (hres enc dec ores ires).
@@ -47,10 +113,10 @@ Section Data.
 
   Definition hpost (h : hres) : Prop :=
     (forall site, h_out h <> Panic site) /\ WFS (h_s h) /\
-    (h_out h = Ok tt -> WFP cfg (h_s h) /\ s_st (h_s h) <> PendingConnack).
+    (h_out h = Ok tt -> WFP cfg (h_s h) /\ s_st (h_s h) <> PendingConnack) /\ cinv HC (h_s h).
 
-  Lemma hpost_err (s : state) d ev k : WFS s -> hpost (mkHres s d ev (Err k)).
-  Proof. intros H. unfold hpost. cbn. splits; auto; intros; discriminate. Qed.
+  Lemma hpost_err (s : state) d ev k : WFS s -> cinv HC s -> hpost (mkHres s d ev (Err k)).
+  Proof. intros H HI. unfold hpost. cbn. splits; auto; intros; discriminate. Qed.
 
   Definition pcq (s : state) : Prop := s_st s = PendingConnack -> connect_in_queue s = false.
 
@@ -58,14 +124,14 @@ Section Data.
   Proof. destruct l as [|a r]; [reflexivity|]. cbn. intros H Hall. rewrite (Hall a (or_introl eq_refl)) in H. discriminate. Qed.
 
   Lemma handle_connack_spec (s : state) now c :
-    WF cfg s -> pcq s -> hpost (handle_connack s now c).
+    WF cfg s -> cinv HC s -> pcq s -> hpost (handle_connack s now c).
   Proof.
-    intros [HW HP] Hq. unfold Model.handle_connack.
-    destruct (pstate_eqb (s_st s) PendingConnack) eqn:Est; cbn [negb]; [|apply hpost_err; exact HW].
+    intros [HW HP] HI Hq. unfold Model.handle_connack.
+    destruct (pstate_eqb (s_st s) PendingConnack) eqn:Est; cbn [negb]; [|apply hpost_err; assumption].
     apply pstate_eqb_eq in Est.
-    destruct (ca_rc c =? 0); cbn [negb]; [|apply hpost_err; exact HW].
-    destruct (v_in None (Connack c)) as [u|k|site] eqn:Ev; [|apply hpost_err; exact HW|].
-    2:{ exfalso. exact (co_v_in _ _ _ _ _ _ _ _ _ _ _ HC _ _ _ Ev). }
+    destruct (ca_rc c =? 0); cbn [negb]; [|apply hpost_err; assumption].
+    destruct (v_in None (Connack c)) as [u|k|site] eqn:Ev; [|apply hpost_err; assumption|].
+    2:{ exfalso. exact (co_v_in HC _ _ _ Ev). }
     (* what the handshake state tells us *)
     unfold WFP in HP. rewrite Est in HP. destruct HP as (A1 & A2 & A3 & A4 & A5 & A6 & A7 & A8).
     specialize (Hq Est). unfold connect_in_queue in Hq.
@@ -94,11 +160,15 @@ Section Data.
     destruct F2 as (G1 & G2 & G3 & G4 & G5 & G6 & G7 & G8 & G9).
     assert (Hcur2 : forall i, s_cur s2 = Some i -> getop s2 i = None).
     { intros i Hi. unfold getop. rewrite G8. apply Hcur. congruence. }
+    assert (HI2 : cinv HC s2).
+    { destruct HI as (I1 & I2 & I3 & I4). unfold s2. destruct (cf_drain_one cfg); unfold cinv; cbn; splits; auto;
+        try (apply (co_ores_reset HC); exact I3); try (apply (co_ires_reset HC); exact I4). }
     destruct (apply_session_spec cfg s2 (ca_session_present c) HW2 H92 G1 G2 G3 G4 G5 G6 Hcur2)
-      as (P1 & P2 & P3 & P4 & P5 & P6 & P7 & P8).
+      as (P1 & P2 & P3 & P4 & P5 & P6 & P7 & P8 & P9).
+    assert (HIr : cinv HC (r_s (apply_session cfg s2 (ca_session_present c)))) by (eapply cinv_comp; [exact P9|exact HI2]).
     fold st. fold s1. fold s2. set (r := apply_session cfg s2 (ca_session_present c)) in *. clearbody r.
     destruct (r_out r) as [[]|k|site] eqn:Eo.
-    - unfold hpost. cbn. split; [intros; discriminate|]. split; [exact P2|]. intros _. split; [|congruence].
+    - unfold hpost. cbn. split; [intros; discriminate|]. split; [exact P2|]. split; [|exact HIr]. intros _. split; [|congruence].
       unfold WFP. rewrite P4. splits.
       + rewrite P5, G9. discriminate.
       + intros i o Hi Ho. rewrite P6 in Hi. rewrite (P8 i Hi) in Ho. discriminate.
@@ -117,25 +187,27 @@ Section Data.
 
   (* (H1) an acknowledgement completes its operation *)
   Lemma hpost_succeed (s : state) id resp ev :
-    WF cfg s -> pre_connack s = false -> resp <> None -> hpost (hres_of (succeed_op cfg s id resp) ev).
+    WF cfg s -> cinv HC s -> pre_connack s = false -> resp <> None -> hpost (hres_of (succeed_op cfg s id resp) ev).
   Proof.
-    intros [HW HP] Hpre Hr. pose proof (pre_connack_false s Hpre) as Hst.
+    intros [HW HP] HI Hpre Hr. pose proof (pre_connack_false s Hpre) as Hst.
     pose proof (succeed_op_spec cfg [] s id resp HW (W9_of_WFP cfg s HP) (or_introl Hr)) as F.
-    unfold hpost, hres_of. cbn [h_s h_out]. split; [apply F|]. split; [apply F|]. intros _. split.
+    unfold hpost, hres_of. cbn [h_s h_out]. split; [apply F|]. split; [apply F|]. split.
+    2:{ eapply cinv_comp; [|exact HI]. apply rest_comp. apply F. }
+    intros _. split.
     - eapply (WFP_after_fail cfg _ s); [exact HP|exact Hst|apply F|apply F].
     - eapply st_frame_npc; [apply F|exact Hst].
   Qed.
 
   (* (H2) an inbound packet is answered by a fresh internal operation at the back of the high-priority queue *)
   Lemma hpost_newop (s : state) p ev :
-    WF cfg s -> pre_connack s = false -> needs_pid p = false ->
+    WF cfg s -> cinv HC s -> pre_connack s = false -> needs_pid p = false ->
     hpost (let (s1, id) := create_operation s (new_op p false None) in mkHres (s1 <| s_hq := s_hq s1 ++ [id] |>) [] ev (Ok tt)).
   Proof.
-    intros [HW HP] Hpre Hn. pose proof (pre_connack_false s Hpre) as Hst.
+    intros [HW HP] HI Hpre Hn. pose proof (pre_connack_false s Hpre) as Hst.
     set (o := new_op p false None).
     destruct (create_op_spec [] s o HW eq_refl eq_refl) as (C1 & C2 & C3 & C4 & C5 & C6 & C7 & C8 & C9 & C10).
     cbn [create_operation fst snd] in *. unfold hpost. cbn [h_s h_out].
-    split; [intros; discriminate|]. split; [|intros _; split].
+    split; [intros; discriminate|]. split; [|split; [intros _; split|exact HI]].
     - eapply WFS_queues; [exact C2| | | | | | | | | | |]; cbn; auto; try tauto.
       + core_cbn. cbn. intros i. cbn. intros [H|[H|[H|[H|H]]]]; try tauto.
         apply in_app_or in H. destruct H as [H|[<-|[]]]; [tauto|]. right; right. lia.
@@ -146,88 +218,193 @@ Section Data.
     - cbn. destruct Hst as [H|[H|H]]; rewrite H; discriminate.
   Qed.
 
-  Lemma hpost_same (s : state) ev : WF cfg s -> pre_connack s = false -> hpost (mkHres s [] ev (Ok tt)).
+  Lemma hpost_same (s : state) ev : WF cfg s -> cinv HC s -> pre_connack s = false -> hpost (mkHres s [] ev (Ok tt)).
   Proof.
-    intros [HW HP] Hpre. unfold hpost. cbn. split; [intros; discriminate|]. split; [exact HW|]. intros _. split; [exact HP|].
+    intros [HW HP] HI Hpre. unfold hpost. cbn. split; [intros; discriminate|]. split; [exact HW|]. split; [|exact HI]. intros _. split; [exact HP|].
     destruct (pre_connack_false s Hpre) as [H|[H|H]]; rewrite H; discriminate.
   Qed.
 
-  Lemma handle_pingresp_spec (s : state) : WF cfg s -> hpost (handle_pingresp s).
+  Lemma handle_pingresp_spec (s : state) : WF cfg s -> cinv HC s -> hpost (handle_pingresp s).
   Proof.
-    intros [HW HP]. unfold handle_pingresp.
-    destruct (s_st s) eqn:Est; try (apply hpost_err; exact HW);
-      (destruct (s_ping_to s); [|apply hpost_err; exact HW]);
-      unfold hpost; cbn; (split; [intros; discriminate|]); (split; [exact HW|]); intros _; rewrite Est;
+    intros [HW HP] HI. unfold handle_pingresp.
+    destruct (s_st s) eqn:Est; try (apply hpost_err; assumption);
+      (destruct (s_ping_to s); [|apply hpost_err; assumption]);
+      unfold hpost; cbn; (split; [intros; discriminate|]); (split; [exact HW|]); (split; [|exact HI]); intros _; rewrite Est;
       (split; [|discriminate]); unfold WFP in *; cbn; rewrite Est in *; exact HP.
   Qed.
 
-  Lemma handle_suback_spec (s : state) a : WF cfg s -> hpost (handle_suback cfg s a).
+  Lemma handle_suback_spec (s : state) a : WF cfg s -> cinv HC s -> hpost (handle_suback cfg s a).
   Proof.
-    intros HWF. pose proof HWF as [HW HP]. unfold handle_suback.
-    destruct (pre_connack s) eqn:Hpre; [apply hpost_err; exact HW|].
-    destruct (lookup (sa_pid a) (s_pnon s)) as [id|] eqn:El; [|apply hpost_err; exact HW].
+    intros HWF HI. pose proof HWF as [HW HP]. unfold handle_suback.
+    destruct (pre_connack s) eqn:Hpre; [apply hpost_err; assumption|].
+    destruct (lookup (sa_pid a) (s_pnon s)) as [id|] eqn:El; [|apply hpost_err; assumption].
     apply lookup_In in El. destruct (w_pnon _ _ HW _ _ El) as (o & Ho & _). unfold gop in Ho. cbn in Ho. rewrite Ho.
-    destruct (op_packet o); try (apply hpost_err; exact HW).
-    match goal with |- context [if ?b then _ else _] => destruct b end; [apply hpost_err; exact HW|].
-    apply hpost_succeed; [exact HWF|exact Hpre|discriminate].
+    destruct (op_packet o); try (apply hpost_err; assumption).
+    match goal with |- context [if ?b then _ else _] => destruct b end; [apply hpost_err; assumption|].
+    apply hpost_succeed; [exact HWF|exact HI|exact Hpre|discriminate].
   Qed.
 
-  Lemma handle_unsuback_spec (s : state) a : WF cfg s -> hpost (handle_unsuback cfg s a).
+  Lemma handle_unsuback_spec (s : state) a : WF cfg s -> cinv HC s -> hpost (handle_unsuback cfg s a).
   Proof.
-    intros HWF. pose proof HWF as [HW HP]. unfold handle_unsuback.
-    destruct (pre_connack s) eqn:Hpre; [apply hpost_err; exact HW|].
-    destruct (lookup (ua_pid a) (s_pnon s)) as [id|] eqn:El; [|apply hpost_err; exact HW].
+    intros HWF HI. pose proof HWF as [HW HP]. unfold handle_unsuback.
+    destruct (pre_connack s) eqn:Hpre; [apply hpost_err; assumption|].
+    destruct (lookup (ua_pid a) (s_pnon s)) as [id|] eqn:El; [|apply hpost_err; assumption].
     apply lookup_In in El. destruct (w_pnon _ _ HW _ _ El) as (o & Ho & _). unfold gop in Ho. cbn in Ho. rewrite Ho.
-    destruct (op_packet o); try (apply hpost_err; exact HW).
-    destruct (version_eqb (cf_version cfg) V311); [apply hpost_succeed; [exact HWF|exact Hpre|discriminate]|].
-    match goal with |- context [if ?b then _ else _] => destruct b end; [apply hpost_err; exact HW|].
-    apply hpost_succeed; [exact HWF|exact Hpre|discriminate].
+    destruct (op_packet o); try (apply hpost_err; assumption).
+    destruct (version_eqb (cf_version cfg) V311); [apply hpost_succeed; [exact HWF|exact HI|exact Hpre|discriminate]|].
+    match goal with |- context [if ?b then _ else _] => destruct b end; [apply hpost_err; assumption|].
+    apply hpost_succeed; [exact HWF|exact HI|exact Hpre|discriminate].
   Qed.
 
-  Lemma handle_puback_spec (s : state) a : WF cfg s -> hpost (handle_puback cfg s a).
+  Lemma handle_puback_spec (s : state) a : WF cfg s -> cinv HC s -> hpost (handle_puback cfg s a).
   Proof.
-    intros HWF. pose proof HWF as [HW HP]. unfold handle_puback.
-    destruct (pre_connack s) eqn:Hpre; [apply hpost_err; exact HW|].
-    destruct (lookup (ack_pid a) (s_ppub s)) as [id|]; [|apply hpost_err; exact HW].
-    destruct (publish_qos_of s id) as [[|[q|q|]]|]; try (apply hpost_err; exact HW).
-    apply hpost_succeed; [exact HWF|exact Hpre|discriminate].
+    intros HWF HI. pose proof HWF as [HW HP]. unfold handle_puback.
+    destruct (pre_connack s) eqn:Hpre; [apply hpost_err; assumption|].
+    destruct (lookup (ack_pid a) (s_ppub s)) as [id|]; [|apply hpost_err; assumption].
+    destruct (publish_qos_of s id) as [[|[q|q|]]|]; try (apply hpost_err; assumption).
+    apply hpost_succeed; [exact HWF|exact HI|exact Hpre|discriminate].
   Qed.
 
-  Lemma handle_pubcomp_spec (s : state) a : WF cfg s -> hpost (handle_pubcomp cfg s a).
+  Lemma handle_pubcomp_spec (s : state) a : WF cfg s -> cinv HC s -> hpost (handle_pubcomp cfg s a).
   Proof.
-    intros HWF. pose proof HWF as [HW HP]. unfold handle_pubcomp.
-    destruct (pre_connack s) eqn:Hpre; [apply hpost_err; exact HW|].
-    destruct (lookup (ack_pid a) (s_ppub s)) as [id|] eqn:El; [|apply hpost_err; exact HW].
+    intros HWF HI. pose proof HWF as [HW HP]. unfold handle_pubcomp.
+    destruct (pre_connack s) eqn:Hpre; [apply hpost_err; assumption|].
+    destruct (lookup (ack_pid a) (s_ppub s)) as [id|] eqn:El; [|apply hpost_err; assumption].
     apply lookup_In in El. destruct (w_ppub _ _ HW _ _ El) as (o & Ho & _ & Hk). unfold gop in Ho. cbn in Ho. rewrite Ho.
     destruct (op_packet o); try discriminate.
-    destruct (pub_qos p =? 2); [|apply hpost_err; exact HW].
-    destruct (op_pubrel o); [|apply hpost_err; exact HW].
-    apply hpost_succeed; [exact HWF|exact Hpre|discriminate].
+    destruct (pub_qos p =? 2); [|apply hpost_err; assumption].
+    destruct (op_pubrel o); [|apply hpost_err; assumption].
+    apply hpost_succeed; [exact HWF|exact HI|exact Hpre|discriminate].
   Qed.
 
-  Lemma handle_pubrel_spec (s : state) a : WF cfg s -> hpost (handle_pubrel s a).
+  Lemma handle_pubrel_spec (s : state) a : WF cfg s -> cinv HC s -> hpost (handle_pubrel s a).
   Proof.
-    intros HWF. pose proof HWF as [HW HP]. unfold handle_pubrel.
-    destruct (pre_connack s) eqn:Hpre; [apply hpost_err; exact HW|].
+    intros HWF HI. pose proof HWF as [HW HP]. unfold handle_pubrel.
+    destruct (pre_connack s) eqn:Hpre; [apply hpost_err; assumption|].
     set (s1 := s <| s_q2in := set_remove (ack_pid a) (s_q2in s) |>).
-    apply (hpost_newop s1); [split; [exact HW|exact HP]|exact Hpre|reflexivity].
+    apply (hpost_newop s1); [split; [exact HW|exact HP]|exact HI|exact Hpre|reflexivity].
   Qed.
 
-  Lemma handle_publish_spec (s : state) pb : WF cfg s -> hpost (handle_publish s pb).
+  Lemma handle_publish_spec (s : state) pb : WF cfg s -> cinv HC s -> hpost (handle_publish s pb).
   Proof.
-    intros HWF. pose proof HWF as [HW HP]. unfold handle_publish.
-    destruct (pre_connack s) eqn:Hpre; [apply hpost_err; exact HW|].
+    intros HWF HI. pose proof HWF as [HW HP]. unfold handle_publish.
+    destruct (pre_connack s) eqn:Hpre; [apply hpost_err; assumption|].
     destruct (pub_qos pb =? 0); [apply hpost_same; assumption|].
-    destruct (pub_qos pb =? 1); [apply (hpost_newop s); [exact HWF|exact Hpre|reflexivity]|].
+    destruct (pub_qos pb =? 1); [apply (hpost_newop s); [exact HWF|exact HI|exact Hpre|reflexivity]|].
     destruct (mem (pub_pid pb) (s_q2in s)).
-    - apply (hpost_newop s); [exact HWF|exact Hpre|reflexivity].
+    - apply (hpost_newop s); [exact HWF|exact HI|exact Hpre|reflexivity].
     - set (s0 := s <| s_q2in := set_insert (pub_pid pb) (s_q2in s) |>).
-      apply (hpost_newop s0); [split; [exact HW|exact HP]|exact Hpre|reflexivity].
+      apply (hpost_newop s0); [split; [exact HW|exact HP]|exact HI|exact Hpre|reflexivity].
   Qed.
 
-  Lemma handle_disconnect_spec (s : state) d : WF cfg s -> hpost (handle_disconnect cfg s d).
+  Lemma handle_disconnect_spec (s : state) d : WF cfg s -> cinv HC s -> hpost (handle_disconnect cfg s d).
   Proof.
-    intros [HW HP]. unfold handle_disconnect. destruct (pre_connack s); [apply hpost_err; exact HW|].
-    destruct (version_eqb (cf_version cfg) V311); apply hpost_err; exact HW.
+    intros [HW HP] HI. unfold handle_disconnect. destruct (pre_connack s); [apply hpost_err; assumption|].
+    destruct (version_eqb (cf_version cfg) V311); apply hpost_err; assumption.
+  Qed.
+
+  Lemma handle_pubrec_spec (s : state) a : WF cfg s -> cinv HC s -> hpost (handle_pubrec cfg s a).
+  Proof.
+    intros HWF HI. pose proof HWF as [HW HP]. unfold handle_pubrec.
+    destruct (pre_connack s) eqn:Hpre; [apply hpost_err; assumption|].
+    destruct (lookup (ack_pid a) (s_ppub s)) as [id|] eqn:El; [|apply hpost_err; assumption].
+    apply lookup_In in El.
+    destruct (lookup id (s_ops s)) as [o|] eqn:Ho; [|apply hpost_same; assumption].
+    destruct (op_packet o) eqn:Ep; try (apply hpost_err; assumption).
+    destruct (pub_qos p =? 2); [|apply hpost_err; assumption].
+    destruct (128 <=? ack_rc a); [apply hpost_succeed; [exact HWF|exact HI|exact Hpre|discriminate]|].
+    pose proof (pre_connack_false s Hpre) as Hst.
+    set (f := fun o : op => o <| op_pubrel := Some (Pubrel (default_ack (ack_pid a))) |>).
+    set (sM := s <| s_ops := update id f (s_ops s) |>).
+    assert (HWM : WFS sM).
+    { eapply (WFc_set_pubrel [] (core_of s) _ id (ack_pid a)); [exact HW|exact El|reflexivity]. }
+    unfold hpost. cbn [h_s h_out]. split; [intros; discriminate|]. split; [|split; [intros _; split|exact HI]].
+    - eapply (WFS_queues [] [] sM); [exact HWM| | | | | | | | | | |]; cbn; auto; try tauto.
+      + core_cbn. cbn. intros i [H|[H|[H|[H|H]]]]; try tauto. apply in_app_or in H. destruct H as [H|[<-|[]]]; [tauto|].
+        right; left. eapply (lookup_in_keys id (update id f (s_ops s))). apply lookup_update_eq. exact Ho.
+      + intros i Hi. apply in_app_or in Hi. destruct Hi as [Hi|[<-|[]]]; [tauto|]. right. intros o1 _ _. eauto.
+    - (* per-state facts: only op_pubrel of one operation and the queue changed *)
+      unfold WFP in *. cbn. destruct Hst as [H|[H|H]]; rewrite H in *; try exact I; try exact HP.
+      destruct HP as (A1 & A2 & A3). splits; auto.
+      + intros i o1 Hc Hi. unfold getop in Hi. cbn in Hi. apply lookup_update_inv in Hi.
+        destruct Hi as (o0 & Ho0 & [[Hne ->]|[-> ->]]); [exact (A2 i o0 Hc Ho0)|].
+        destruct (A2 id o0 Hc Ho0) as (B1 & B2). split; [exact B1|exact B2].
+      + unfold ss_ok in *. cbn. rewrite sumss_update by reflexivity. exact A3.
+    - cbn. destruct Hst as [H|[H|H]]; rewrite H; discriminate.
+  Qed.
+
+  Lemma handle_packet_spec (s : state) now p : WF cfg s -> cinv HC s -> pcq s -> hpost (handle_packet s now p).
+  Proof.
+    intros HWF HI Hq. pose proof HWF as [HW HP]. destruct p; cbn [Model.handle_packet]; try (apply hpost_err; assumption).
+    - apply handle_connack_spec; assumption.
+    - apply handle_publish_spec; assumption.
+    - apply handle_puback_spec; assumption.
+    - apply handle_pubrec_spec; assumption.
+    - apply handle_pubrel_spec; assumption.
+    - apply handle_pubcomp_spec; assumption.
+    - apply handle_suback_spec; assumption.
+    - apply handle_unsuback_spec; assumption.
+    - apply handle_pingresp_spec; assumption.
+    - apply handle_disconnect_spec; assumption.
+  Qed.
+
+  Definition hps_post (h : hres) : Prop :=
+    (forall site, h_out h <> Panic site) /\ WFS (h_s h) /\ (h_out h = Ok tt -> WFP cfg (h_s h)) /\ cinv HC (h_s h).
+
+  Lemma hps_err (s : state) d ev k : WFS s -> cinv HC s -> hps_post (mkHres s d ev (Err k)).
+  Proof. intros H HI. unfold hps_post. cbn. splits; auto; intros; discriminate. Qed.
+
+  Lemma handle_packets_spec now : forall ps (s : state) dn ev,
+    WF cfg s -> cinv HC s -> pcq s -> hps_post (handle_packets s now ps dn ev).
+  Proof.
+    induction ps as [|p rest IH]; intros s dn ev HWF HI Hq; pose proof HWF as [HW HP]; cbn [Model.handle_packets].
+    { unfold hps_post. cbn. splits; auto. intros; discriminate. }
+    assert (Hres : match (match p with
+                          | Publish pb => do (i', t) <- ires_resolve (s_ires s) (pub_alias pb) (pub_topic pb) ;
+                                          Ok (s <| s_ires := i' |>, Publish (with_topic pb t))
+                          | _ => Ok (s, p) end) with
+                   | Ok (s1, p1) => WF cfg s1 /\ pcq s1 /\ cinv HC s1
+                   | Err _ => True
+                   | Panic _ => False end).
+    { destruct p; try (splits; assumption).
+      destruct (co_ires HC (s_ires s) (pub_alias p) (pub_topic p) (proj2 (proj2 (proj2 HI)))) as (Hnp & Hinv).
+      destruct (ires_resolve (s_ires s) (pub_alias p) (pub_topic p)) as [[i' t]|k|site] eqn:Er; cbn [obind]; try exact I.
+      - split; [split; [exact HW|exact HP]|split; [exact Hq|]].
+        destruct HI as (I1 & I2 & I3 & I4). unfold cinv. cbn. splits; auto. eapply Hinv. reflexivity.
+      - eapply Hnp. reflexivity. }
+    destruct (match p with
+              | Publish pb => do (i', t) <- ires_resolve (s_ires s) (pub_alias pb) (pub_topic pb) ;
+                              Ok (s <| s_ires := i' |>, Publish (with_topic pb t))
+              | _ => Ok (s, p) end) as [[s1 p1]|k|site]; [|apply hps_err; assumption|destruct Hres].
+    destruct Hres as (HWF1 & Hq1 & HI1). pose proof HWF1 as [HW1 HP1].
+    destruct (v_in (s_settings s1) p1) as [u|k|site] eqn:Ev; [|apply hps_err; assumption|].
+    2:{ exfalso. exact (co_v_in HC _ _ _ Ev). }
+    destruct (handle_packet_spec s1 now p1 HWF1 HI1 Hq1) as (N1 & W1 & P1 & J1).
+    destruct (h_out (handle_packet s1 now p1)) as [[]|k|site] eqn:Eo.
+    - destruct (P1 eq_refl) as (P2 & P3). apply IH; [split; assumption|exact J1|]. intros E. congruence.
+    - apply hps_err; assumption.
+    - exfalso. eapply N1. reflexivity.
+  Qed.
+
+  Lemma net_data_spec (s : state) now data : WF cfg s -> cinv HC s -> hps_post (net_data s now data).
+  Proof.
+    intros HWF HI. pose proof HWF as [HW HP]. unfold Model.net_data.
+    destruct (pstate_eqb (s_st s) Disconnected || pstate_eqb (s_st s) Halted); [apply hps_err; assumption|].
+    destruct (pstate_eqb (s_st s) PendingConnack && connect_in_queue s) eqn:Eg; [apply hps_err; assumption|].
+    destruct (co_dec_feed HC (cf_version cfg) (max_incoming_size cfg) (s_dec s) data (proj1 (proj2 HI))) as (Hnpd & Hinvd).
+    destruct (dec_feed (cf_version cfg) (max_incoming_size cfg) (s_dec s) data) as [[d' ps] r] eqn:Ed.
+    set (s1 := s <| s_dec := d' |>).
+    assert (HI1 : cinv HC s1) by (destruct HI as (I1 & I2 & I3 & I4); unfold cinv; cbn; splits; auto).
+    assert (HWF1 : WF cfg s1) by (split; [exact HW|exact HP]).
+    assert (Hq1 : pcq s1).
+    { intros E. change (connect_in_queue s1) with (connect_in_queue s). change (s_st s1) with (s_st s) in E.
+      rewrite E in Eg. cbn in Eg. exact Eg. }
+    destruct r as [u|k|site].
+    - apply handle_packets_spec; assumption.
+    - apply hps_err; assumption.
+    - exfalso. eapply Hnpd. reflexivity.
   Qed.
 End Data.
+
+Arguments hps_post {enc enc_reset enc_call dec dec_init dec_feed ores ores_reset ores_resolve ires ires_reset ires_resolve v_out v_in} cfg HC h.
+Arguments pcq {enc dec ores ires} s.
